@@ -284,6 +284,107 @@ pub fn run_obs(op: &str, step: &Value, regs: &Regs, ctx: &mut Ctx, keys: &crate:
             let single = res_digest(e.attachment_with_vendor_and_conforms_to(v, c));
             json!({"list": list_json, "single": single, "parts": ["set", parts]})
         }
+
+        "obs_parse" => {
+            use bc_envelope::prelude::*;
+            let e = reg(regs, a(0))?;
+            let what = a(1).as_str().ok_or("what")?;
+            let exp = a(2);
+            // functions may be run-time values or compile-time constants: both must compare equal to a parsed one
+            fn static_name(s: &str) -> &'static str {
+                match s { "f" => "f", "1" => "1", "p" => "p", _ => "other" }
+            }
+            let expected: Option<Function> = match exp[0].as_str().unwrap_or("") {
+                "k" => Some(if var % 2 == 0 { Function::new_known(exp[1].as_u64().unwrap(), None) } else { Function::new_with_static_name(exp[1].as_u64().unwrap(), "static") }),
+                "n" => Some(if var % 2 == 0 { Function::new_named(exp[1].as_str().unwrap()) } else { Function::new_static_named(static_name(exp[1].as_str().unwrap())) }),
+                _ => None,
+            };
+            let fn_json = |f: &Function| -> Value {
+                let c: dcbor::CBOR = f.clone().into();
+                json!({"cbor": hx(&c.to_cbor_data())})
+            };
+            let params_json = |x: &Envelope| -> Value {
+                let mut v: Vec<Value> = vec![];
+                for asn in x.assertions() {
+                    let s = asn.subject();
+                    if let (Some(p), Some(o)) = (s.as_predicate(), s.as_object()) {
+                        if let Ok(param) = p.extract_subject::<Parameter>() {
+                            let c: dcbor::CBOR = param.into();
+                            v.push(json!([hx(&c.to_cbor_data()), dhex(&o)]));
+                        }
+                    }
+                }
+                json!(["set", v])
+            };
+            let date_json = |d: Option<&dcbor::Date>| -> Value {
+                match d {
+                    None => json!("~none~"),
+                    Some(d) => {
+                        let c: dcbor::CBOR = d.clone().into();
+                        json!({"cbor": hx(&c.to_cbor_data())})
+                    }
+                }
+            };
+            // parse directly and through serialization: both must give equal values
+            let bytes = e.tagged_cbor().to_cbor_data();
+            let e2 = Envelope::try_from_cbor_data(bytes).map_err(|x| x.to_string())?;
+            match what {
+                "expression" => {
+                    let r1 = Expression::try_from((e.clone(), expected.as_ref()));
+                    let r2 = Expression::try_from((e2, expected.as_ref()));
+                    match (r1, r2) {
+                        (Ok(x), Ok(y)) => {
+                            if x != y { return Err("expression parsed directly and through bytes differ".into()); }
+                            json!(["ok", ["expression", fn_json(x.function()), params_json(x.expression_envelope())]])
+                        }
+                        (Err(er), Err(_)) => json!(["err", err_kind(&er)]),
+                        _ => return Err("parse outcome differs between direct and through bytes".into()),
+                    }
+                }
+                "request" => {
+                    let r1 = Request::try_from((e.clone(), expected.as_ref()));
+                    let r2 = Request::try_from((e2, expected.as_ref()));
+                    match (r1, r2) {
+                        (Ok(x), Ok(y)) => {
+                            if x != y { return Err("request parsed directly and through bytes differ".into()); }
+                            json!(["ok", ["request", fn_json(x.function()), params_json(x.expression_envelope()), x.id().data()[0], x.note(), date_json(x.date())]])
+                        }
+                        (Err(er), Err(_)) => json!(["err", err_kind(&er)]),
+                        _ => return Err("parse outcome differs between direct and through bytes".into()),
+                    }
+                }
+                "response" => {
+                    let r1 = Response::try_from(e.clone());
+                    let r2 = Response::try_from(e2);
+                    match (r1, r2) {
+                        (Ok(x), Ok(y)) => {
+                            if x != y { return Err("response parsed directly and through bytes differ".into()); }
+                            let (variant, id, payload) = if x.is_ok() {
+                                ("success", x.id().map(|i| i.data()[0]).unwrap_or(0), dhex(x.result().map_err(|e| e.to_string())?))
+                            } else {
+                                (if x.id().is_some() { "failure" } else { "early" }, x.id().map(|i| i.data()[0]).unwrap_or(0), dhex(x.error().map_err(|e| e.to_string())?))
+                            };
+                            json!(["ok", ["response", variant, id, payload]])
+                        }
+                        (Err(er), Err(_)) => json!(["err", err_kind(&er)]),
+                        _ => return Err("parse outcome differs between direct and through bytes".into()),
+                    }
+                }
+                "event" => {
+                    let r1 = Event::<Envelope>::try_from(e.clone());
+                    let r2 = Event::<Envelope>::try_from(e2);
+                    match (r1, r2) {
+                        (Ok(x), Ok(y)) => {
+                            if x != y { return Err("event parsed directly and through bytes differ".into()); }
+                            json!(["ok", ["event", dhex(x.content()), x.id().data()[0], x.note(), date_json(x.date())]])
+                        }
+                        (Err(er), Err(_)) => json!(["err", err_kind(&er)]),
+                        _ => return Err("parse outcome differs between direct and through bytes".into()),
+                    }
+                }
+                _ => return Err("parse what".into()),
+            }
+        }
         "obs_compare" => {
             let x = reg(regs, a(0))?;
             let y = reg(regs, a(1))?;
@@ -479,6 +580,57 @@ pub fn compare_obs(op: &str, want: &Value, got: &Value, ctx: &mut Ctx, natural_o
                 }
                 _ => Err(format!("bad expected answer {}", want)),
             }
+        }
+        "obs_parse" => {
+            // the specification's answer names functions / parameters / dates symbolically: evaluate them
+            fn sym(v: &Value, ctx: &mut Ctx) -> Result<Value, String> {
+                match v {
+                    Value::Array(a) => {
+                        let t = a.first().and_then(|x| x.as_str()).unwrap_or("");
+                        if (t == "H" && a.len() == 3) || (t == "X" && a.len() == 2) {
+                            return Ok(Value::String(hx(&ctx.digest(v).map_err(|e| e.0)?)));
+                        }
+                        Ok(Value::Array(a.iter().map(|x| sym(x, ctx)).collect::<Result<Vec<_>, _>>()?))
+                    }
+                    _ => Ok(v.clone()),
+                }
+            }
+            if tag_of(want) == "err" {
+                return if tag_of(got) == "err" { Ok(()) } else { Err(format!("#accepted-malformed# specification rejects ({}) but the library parsed {}", want[1], got)) };
+            }
+            if tag_of(got) != "ok" {
+                return Err(format!("#rejected-wellformed# specification parses {} but the library answered {}", want[1], got));
+            }
+            let w = &want[1];
+            let g = &got[1];
+            let fcbor = |f: &Value, tagname: &str, ctx: &mut Ctx| -> Result<Value, String> {
+                Ok(json!({"cbor": hx(&ctx.atom_cbor(&json!([tagname, f[0], f[1]])).map_err(|e| e.0)?)}))
+            };
+            let params = |p: &Value, ctx: &mut Ctx| -> Result<Value, String> {
+                let mut v = vec![];
+                for x in p[1].as_array().ok_or("params")? {
+                    let pc = hx(&ctx.atom_cbor(&json!(["param", x[0][0], x[0][1]])).map_err(|e| e.0)?);
+                    v.push(json!([pc, sym(&x[1], ctx)?]));
+                }
+                Ok(canon(&json!(["set", v])))
+            };
+            let date = |d: &Value, ctx: &mut Ctx| -> Result<Value, String> {
+                if d.as_str() == Some("~none~") { return Ok(json!("~none~")); }
+                Ok(json!({"cbor": hx(&ctx.atom_cbor(&json!(["date", d])).map_err(|e| e.0)?)}))
+            };
+            let expect: Value = match w[0].as_str().unwrap_or("") {
+                "expression" => json!(["expression", fcbor(&w[1], "fn", ctx)?, params(&w[2], ctx)?]),
+                "request" => json!(["request", fcbor(&w[1], "fn", ctx)?, params(&w[2], ctx)?, w[3], w[4], date(&w[5], ctx)?]),
+                "response" => json!(["response", w[1], w[2], sym(&w[3], ctx)?]),
+                "event" => json!(["event", sym(&w[1], ctx)?, w[2], w[3], date(&w[4], ctx)?]),
+                _ => return Err("bad expected parse".into()),
+            };
+            let gg = canon(g);
+            // a known function / parameter compares by number: the library may carry a name
+            if canon(&expect) != gg {
+                return Err(format!("parsed value differs: specification {} library {}", expect, gg));
+            }
+            Ok(())
         }
         "obs_confirm" => {
             if got["accept"] != want["accept"] {
